@@ -570,4 +570,167 @@ theorem outRoot_stable (cfg : Cfg) (hm : cfg.mini = false) (hi : IndentWS cfg) (
   have := stabN cfg hm hi _ hs ⟨0, 0⟩
   simpa only [StabAt] using this
 
+/-! ### the reserved name stays out (all classes) -/
+
+theorem nwL_append (xs ys : List FNode) : NoWrapperL (xs ++ ys) ↔ NoWrapperL xs ∧ NoWrapperL ys := by
+  induction xs with
+  | nil => simp [NoWrapperL]
+  | cons x xs ih => simp [NoWrapperL, ih, and_assoc]
+
+theorem nw_dataTok (s : Str) : NoWrapperL (dataTok s) := by
+  unfold dataTok
+  split <;> simp [NoWrapperL, FNode.NoWrapper]
+
+mutual
+theorem nw_expand (cfg : Cfg) (c : Ctx) (p : Str) : ∀ u : FNode, u.NoWrapper → NoWrapperL (expand cfg c p u)
+  | .tok t, _ => by
+    cases t with
+    | data s => simp only [expand, expandTok]; exact nw_dataTok _
+    | _ => simp [expand, expandTok, NoWrapperL, FNode.NoWrapper]
+  | .elem n st sc kids, h => by
+    simp only [FNode.NoWrapper] at h
+    simp only [expand]
+    rw [nwL_append]
+    refine ⟨nw_dataTok _, ?_, trivial⟩
+    simp only [FNode.NoWrapper]
+    refine ⟨h.1, ?_⟩
+    cases sc with
+    | true => trivial
+    | false =>
+      simp only [Bool.false_eq_true, if_false]
+      rw [nwL_append]
+      exact ⟨nw_expandL cfg (c.push n) n kids h.2, nw_dataTok _⟩
+theorem nw_expandL (cfg : Cfg) (c : Ctx) (p : Str) : ∀ ks : List FNode, NoWrapperL ks → NoWrapperL (expandL cfg c p ks)
+  | [], _ => trivial
+  | k :: ks, h => by
+    simp only [NoWrapperL] at h
+    simp only [expandL]
+    rw [nwL_append]
+    exact ⟨nw_expand cfg c p k h.1, nw_expandL cfg c p ks h.2⟩
+end
+
+theorem nw_pushTok (t : Token) (r : List FNode) (h : NoWrapperL r) : NoWrapperL (pushTok t r) := by
+  unfold pushTok
+  split
+  · simp only [NoWrapperL] at h ⊢
+    exact ⟨trivial, h.2⟩
+  · exact ⟨trivial, h⟩
+
+theorem nw_mergeL : ∀ ks : List FNode, NoWrapperL ks → NoWrapperL (mergeL ks)
+  | [], _ => by simp [mergeL, NoWrapperL]
+  | .tok t :: ks, h => by
+    simp only [NoWrapperL] at h
+    simp only [mergeL]
+    exact nw_pushTok t _ (nw_mergeL ks h.2)
+  | .elem n st sc kids :: ks, h => by
+    simp only [NoWrapperL, FNode.NoWrapper] at h
+    simp only [mergeL, NoWrapperL, FNode.NoWrapper]
+    exact ⟨⟨h.1.1, nw_mergeL kids h.1.2⟩, nw_mergeL ks h.2⟩
+
+theorem nw_gK (cfg : Cfg) (c : Ctx) (m : Str) (st : AStore) (sc : Bool) (kk : List FNode)
+    (h : (FNode.elem m st sc kk).NoWrapper) : (FNode.elem m st sc (gK cfg c m sc kk)).NoWrapper := by
+  simp only [FNode.NoWrapper] at h ⊢
+  refine ⟨h.1, ?_⟩
+  unfold gK
+  apply nw_mergeL
+  cases sc with
+  | true => trivial
+  | false =>
+    simp only [Bool.false_eq_true, if_false]
+    rw [nwL_append]
+    exact ⟨nw_expandL cfg _ m kk h.2, nw_dataTok _⟩
+
+theorem nw_dtToks (dt : Option Str) : ∀ t ∈ dtToks dt, (Tok.ofToken t).startName? ≠ some wrapper := by
+  intro t ht
+  cases dt with
+  | none => simp [dtToks] at ht
+  | some d =>
+    by_cases hd : d.isEmpty = true
+    · simp [dtToks, hd] at ht
+    · simp [dtToks, hd] at ht; subst ht; simp [Tok.ofToken, Tok.startName?]
+
+/-! ### one pass through the real pipeline -/
+
+/-- the tokens of a strict document without the reserved name do not start the wrapper -/
+theorem noWrapperStart_strictToks (dt : Option Str) (u : FNode) (hs : u.Strict) (hnw : u.NoWrapper) :
+    NoWrapperStart (strictToks dt u) := by
+  intro t ht
+  simp only [strictToks, List.map_append, List.mem_append, List.mem_map] at ht
+  rcases ht with ⟨t0, ht0, rfl⟩ | ⟨t0, ht0, rfl⟩
+  · exact nw_dtToks dt t0 ht0
+  · exact noWrapper_toks _ (strict_textLike _ hs) hnw t0 ht0
+
+/-- **One pass, text to text.**  Any class with a spaces/tabs indent unit; a token sequence that the plain parser
+    builds into the strict single-root document `u` (doctype `dt`).  The formatter's output is the rendering of
+    `outToks cfg dt u`; the strict lexer reads it back as exactly those tokens; they do not start the wrapper; and the
+    plain parser builds from them the document whose root is `u` with its children replaced by `gK` of them — again
+    strict and free of the reserved name.  (So the next pass is this lemma again, with `gK … kids` for `kids`.) -/
+theorem pass_step (cfg : Cfg) (hi : IndentWS cfg) (dt : Option Str) (hdt : DtOK dt) (n : Str) (st : AStore) (sc : Bool)
+    (kids : List FNode) (hs : (FNode.elem n st sc kids).Strict) (hnw : (FNode.elem n st sc kids).NoWrapper)
+    (toks : List Tok) (hnws : NoWrapperStart toks)
+    (hp : Plain.feed toks = .ok ⟨[], some (FNode.elem n st sc kids).toNode, dt, 0, 0⟩) :
+    format cfg toks = .ok (renderToksY (styleOf cfg.kind) (outToks cfg dt (.elem n st sc kids)))
+    ∧ lexStrict (renderToksY (styleOf cfg.kind) (outToks cfg dt (.elem n st sc kids)))
+        = some (outToks cfg dt (.elem n st sc kids))
+    ∧ NoWrapperStart ((outToks cfg dt (.elem n st sc kids)).map Tok.ofToken)
+    ∧ Plain.feed ((outToks cfg dt (.elem n st sc kids)).map Tok.ofToken)
+        = .ok ⟨[], some (FNode.elem n st sc (gK cfg ⟨0, 0⟩ n sc kids)).toNode, dt, 0, 0⟩
+    ∧ (FNode.elem n st sc (gK cfg ⟨0, 0⟩ n sc kids)).Strict
+    ∧ (FNode.elem n st sc (gK cfg ⟨0, 0⟩ n sc kids)).NoWrapper := by
+  have hn : n ≠ wrapper := by
+    have h1 := hnw
+    have h2 := hs
+    simp only [FNode.NoWrapper] at h1
+    simp only [FNode.Strict] at h2
+    rw [← h2.1.2.2]; exact h1.1
+  have htext := format_text cfg toks hnws _ hp n st sc kids rfl (fun e => absurd e hn) hs
+  have hdoc : docToks cfg dt n st sc kids = outToks cfg dt (.elem n st sc kids) := by
+    unfold docToks; simp [hn]
+  rw [hdoc] at htext
+  have hstrict2 := strict_gK cfg hi ⟨0, 0⟩ n st sc kids hs
+  have hnw2 := nw_gK cfg ⟨0, 0⟩ n st sc kids hnw
+  refine ⟨htext, doc_lex cfg hi dt _ hs hdt, ?_, ?_, hstrict2, hnw2⟩
+  · intro t ht
+    simp only [outToks, outBlocks_eq, outRoot_eq_gK, List.map_append, List.mem_append, List.mem_map, ftoksL_append]
+      at ht
+    rcases ht with ⟨t0, ht0, rfl⟩ | ⟨t0, ht0, rfl⟩ | ⟨t0, ht0, rfl⟩
+    · exact nw_dtToks dt t0 ht0
+    · have : ∀ s, ∀ t ∈ ftoksL (dataTok s), (Tok.ofToken t).startName? ≠ some wrapper := by
+        intro s t ht
+        unfold dataTok at ht
+        split at ht
+        · simp [ftoksL] at ht
+        · simp [ftoksL, FNode.toks] at ht; subst ht; simp [Tok.ofToken, Tok.startName?]
+      exact this _ t0 ht0
+    · simp only [ftoksL, List.append_nil] at ht0
+      exact noWrapper_toks _ (strict_textLike _ hstrict2) hnw2 t0 ht0
+  · have := doc_reparse cfg hi dt n st sc kids hs hdt
+    rw [outRoot_eq_gK] at this
+    exact this
+
+/-- the output text depends on the root's children only through `gK` of them -/
+theorem outToks_congr (cfg : Cfg) (dt : Option Str) (n : Str) (st : AStore) (sc : Bool) (k1 k2 : List FNode)
+    (h : gK cfg ⟨0, 0⟩ n sc k1 = gK cfg ⟨0, 0⟩ n sc k2) :
+    outToks cfg dt (.elem n st sc k1) = outToks cfg dt (.elem n st sc k2) := by
+  simp only [outToks, outBlocks_eq, outRoot_eq_gK, h]
+
+/-- **C12d at string level (pretty³ = pretty²).**  Pretty class (normal or slim elements, indent unit of spaces/tabs),
+    any doctype, any strict single-root document `u` — any size and depth — without the reserved name.  Feed the
+    formatter the tokens of `u`; lex the output text; feed the formatter those tokens; lex again; feed again: the third
+    output text is the second. -/
+theorem pretty_text_stable_core (cfg : Cfg) (hm : cfg.mini = false) (hi : IndentWS cfg) (dt : Option Str)
+    (hdt : DtOK dt) (n : Str) (st : AStore) (sc : Bool) (kids : List FNode)
+    (hs : (FNode.elem n st sc kids).Strict) (hnw : (FNode.elem n st sc kids).NoWrapper) :
+    ∃ out1 toks2 out2 toks3, format cfg (strictToks dt (.elem n st sc kids)) = .ok out1 ∧ lexStrict out1 = some toks2 ∧
+      format cfg (toks2.map Tok.ofToken) = .ok out2 ∧ lexStrict out2 = some toks3 ∧
+      format cfg (toks3.map Tok.ofToken) = .ok out2 := by
+  obtain ⟨f1, l1, w1, p1, s1, n1⟩ := pass_step cfg hi dt hdt n st sc kids hs hnw _
+    (noWrapperStart_strictToks dt _ hs hnw) (plain_feed_strictToks dt hdt n st sc kids hs)
+  obtain ⟨f2, l2, w2, p2, s2, n2⟩ := pass_step cfg hi dt hdt n st sc _ s1 n1 _ w1 p1
+  obtain ⟨f3, _, _, _, _, _⟩ := pass_step cfg hi dt hdt n st sc _ s2 n2 _ w2 p2
+  refine ⟨_, _, _, _, f1, l1, f2, l2, ?_⟩
+  rw [f3]
+  congr 2
+  exact outToks_congr cfg dt n st sc _ _ (outRoot_stable cfg hm hi n st sc kids hs)
+
 end AHP.Fmt
